@@ -152,6 +152,13 @@ func (e *Engine) verifyFuncMode(fn *ssa.Function, cfg SolverCfg, mode string) *F
 			break
 		}
 	}
+	if e.kindFilter != nil {
+		for _, ob := range vc.obs {
+			if !e.kindFilter.MatchString(ob.Kind) && ob.Candidate == 0 && !strings.HasPrefix(ob.Kind, "inv-") {
+				ob.Skip = true
+			}
+		}
+	}
 	res.vc = vc
 	res.Notes = vc.notes
 	res.Inputs = vc.inputs
@@ -190,6 +197,9 @@ func (e *Engine) verifyFuncMode(fn *ssa.Function, cfg SolverCfg, mode string) *F
 		if ob.Term == "true" {
 			res.Obs = append(res.Obs, &ObResult{Ob: ob, Status: "folded", Solver: "generator-constant-folding"})
 			continue
+		}
+		if ob.Skip {
+			continue // not claimed by this unit: assumed only (partial-correctness reading), not solved
 		}
 		st := "unknown"
 		if ci < len(rs) {
